@@ -28,11 +28,16 @@ type Line struct {
 	Err string          `json:"err,omitempty"` // diagnostic only
 }
 
-type evaluator func(raw json.RawMessage) (any, error)
+// an evaluator gets the case input (and, for C07, the expected term it has to evaluate independently)
+type evaluator func(raw, exp json.RawMessage) (any, error)
 
 var evaluators = map[string]evaluator{}
 
-func register(fn string, e evaluator) { evaluators[fn] = e }
+func register(fn string, e func(raw json.RawMessage) (any, error)) {
+	evaluators[fn] = func(raw, _ json.RawMessage) (any, error) { return e(raw) }
+}
+
+func registerExp(fn string, e evaluator) { evaluators[fn] = e }
 
 func evalCase(c Case) (line Line) {
 	line = Line{Tr: c.ID, I: 1, Fn: c.Fn, In: c.In, Exp: c.Exp, Res: "ok", Out: map[string]any{}}
@@ -49,7 +54,7 @@ func evalCase(c Case) (line Line) {
 			line.Res, line.Err, line.Out = "panic", fmt.Sprint(r), map[string]any{}
 		}
 	}()
-	out, err := e(c.In)
+	out, err := e(c.In, c.Exp)
 	if err != nil {
 		line.Res, line.Err = "err", err.Error()
 		return line
